@@ -156,9 +156,10 @@ pub fn gnp_events<W: Write>(em: &mut Emitter<W>, nmax: i32, nseeds: u64, thoroug
         }
     }
     // extreme probabilities: only success and well-formedness are required
-    if thorough {
-        for &n in &[0, 1, 2, 5, 40] {
-            for p in [1.0e-12, 1.0e-17, 1.0 - 1.0e-12] {
+    {
+        let sizes: &[i32] = if thorough { &[0, 1, 2, 3, 5, 40, 300] } else { &[0, 1, 2, 5, 40] };
+        for &n in sizes {
+            for p in [1.0e-12, 1.0e-17, 1.0e-300, f64::MIN_POSITIVE, 5.0e-324, 1.0 - 1.0e-12, 1.0 - f64::EPSILON / 2.0] {
                 for directed in [true, false] {
                     let r = guarded(|| match random::fast_gnp_random_graph(n, p, directed, Some(seed0)) {
                         Ok(g) => { let mut st = structure(&g, n, directed); st["e"] = json!(""); st }
